@@ -52,6 +52,10 @@ def cases(chk):
     ]
     for h in corpus:
         yield "history", {"events": h}
+    # the library's own batch size (812 keys, regenerate below 10): two uploads in a row stay unconfirmed, so that the next login has more
+    # than one batch pending — a limit on what one upload carries shows only then
+    yield "history", {"events": ["connect", "authed", "uploadError:0", "serverAsksKeys", "disconnected", "restart", "connect", "authed", "uploadResult:0",
+                                 "disconnected", "connect", "authed"], "batch": 812, "threshold": 10}
     # the id encoding of uploads (prekey ids, signed prekey id, registration id) at every width boundary
     for k in range(0, 33):
         for n in sorted(set(x for x in ((1 << k) - 1, 1 << k, (1 << k) + 1, r.randrange(1 << k, 2 << k)) if 0 <= x < (1 << 32))):
@@ -146,6 +150,20 @@ def _id_of(b):
 
 
 def run_case(chk, stream, case):
+    """(a case may ask for other batch sizes than the check's small ones: "batch" / "threshold", e.g. the library's own 812 / 10)"""
+    from yowsup.axolotl.manager import AxolotlManager
+    saved = (chk.batch, chk.threshold)
+    if case.get("batch"):
+        chk.batch, chk.threshold = case["batch"], case.get("threshold", 10)
+        AxolotlManager.COUNT_GEN_PREKEYS, AxolotlManager.THRESHOLD_REGEN = chk.batch, chk.threshold
+    try:
+        return _run_case(chk, stream, case)
+    finally:
+        chk.batch, chk.threshold = saved
+        AxolotlManager.COUNT_GEN_PREKEYS, AxolotlManager.THRESHOLD_REGEN = saved
+
+
+def _run_case(chk, stream, case):
     if stream == "idenc":
         from yowsup.layers.axolotl import AxolotlControlLayer
         n = case["n"]
